@@ -20,7 +20,7 @@ CHECKS = {
             "trusts numpy comparisons with bounds cast to the array dtype; 2-D grid only for square n (others are rejected by the constructor)"),
     "C09": ("gensim", "exploration", "seeded generator histories vs multiset epoch reference model, plus exhaustive small scope (all n<=8 quick / n<=12 thorough, b<=n, 7 stream kinds, 3 epochs)",
             "Every (n,b) with b<=n<=8 for every stream kind is enumerated over >=3 epochs (exhaustive sub-space, reported separately); beyond that, seeded histories with larger n, several interleaved generators and all execution modes are sampled. Oracle: permutation only, no double serve when b|n, full cover otherwise, reshuffle exactly when covered.",
-            "reshuffles are observed from store order / cursor==0 / key change (ambiguous events resolved angelically); RAR generators excluded (C16/C17)"),
+            "reshuffles are observed from store order / cursor==0 / key change (ambiguous events resolved angelically); refinement-configured generators are checked for permutation-only invariants here, the epoch of their live part is C16/C17's"),
     "C14": ("gensim", "exploration", "seeded space-time generator histories vs explicit double-loop product model + per-factor epoch models",
             "After every call of seeded histories the interior batch and every border facet are compared bit-for-bit with the explicit product (or pairing) of the factors read off the batch, and the factors are checked against the temporal/spatial/border sub-streams (membership + epoch model).",
             "factors are read off the batch (T every bx rows, X first bx rows) and validated against the stores; CPU only"),
